@@ -34,6 +34,11 @@ RULESETS = {
     # exemptions beside limiting rules of the same command (on a longer and on a shorter interval)
     "E": ({"ip": {"EVENT": "-1/hour,2/s"}, "global": {"REQ": "2/min,-1/s"}, "3.3.3.3": {"REQ": "1/s,-1/min"}},
           {"ip": {"EVENT": [[3600, -1], [1, 2]]}, "global": {"REQ": [[60, 2], [1, -1]]}, "3.3.3.3": {"REQ": [[60, -1], [1, 1]]}}),
+    # IPv6 clients whose last group is decimal digits (it must not be taken for a port), next to the address they would
+    # collapse into, which has a rule of its own
+    "F": ({"ip": {"EVENT": "2/min", "REQ": "1/s"}, "2001:db8::1": {"EVENT": "-1/s"}},
+          {"ip": {"EVENT": [[60, 2]], "REQ": [[1, 1]]}, "2001:db8::1": {"EVENT": [[1, -1]]}},
+          ["2001:db8::1:25", "2001:db8::1:26", "2001:db8::1"]),
 }
 
 GEN_EXTRA = r"""
@@ -48,8 +53,8 @@ def rules_tla(rules):
     return {scope: {cmd: [list(r) for r in rs] for cmd, rs in cmds.items()} for scope, cmds in rules.items()}
 
 
-def gen_sequences(rules, depth, timeout=900):
-    consts = {"Addrs": set(ADDRS), "Cmds": set(CMDS), "Rules": rules_tla(rules), "Deltas": set(DELTAS), "MaxArrivals": depth}
+def gen_sequences(rules, depth, timeout=900, addrs=None):
+    consts = {"Addrs": set(addrs or ADDRS), "Cmds": set(CMDS), "Rules": rules_tla(rules), "Deltas": set(DELTAS), "MaxArrivals": depth}
     text = tlc.mc_module("MCRL", "RateLimiter", ["now", "dq", "hist"], consts,
                          extends=("Integers", "Sequences", "FiniteSets", "TLC", "Json"), extra="GenDepth == %d\n" % depth + GEN_EXTRA)
     with tlc.Workdir(prefix="rlgen-") as wd:
@@ -65,8 +70,8 @@ def gen_sequences(rules, depth, timeout=900):
     return list(seqs), stats
 
 
-def project_dq(rl):
-    out = {k: {c: [] for c in CMDS} for k in ["global"] + ADDRS}
+def project_dq(rl, addrs=None):
+    out = {k: {c: [] for c in CMDS} for k in ["global"] + list(addrs or ADDRS)}
     for key, cmds in rl.recent_commands.items():
         name = key if key == "global" else str(ipaddress.ip_address(key))
         if name not in out:
@@ -77,7 +82,7 @@ def project_dq(rl):
     return out
 
 
-def replay(options, seq, cleanup_at=()):
+def replay(options, seq, cleanup_at=(), addrs=None):
     """seq: list of (t, addr, cmd) with absolute times; returns the trace"""
     from nostr_relay.rate_limiter import RateLimiter
 
@@ -90,10 +95,10 @@ def replay(options, seq, cleanup_at=()):
     for n, (t, addr, cmd) in enumerate(seq):
         clock[0] = t
         lim = bool(rl.is_limited(addr, [cmd, {}]))
-        tr.append({"a": "Arrive", "t": t, "addr": addr, "cmd": cmd, "lim": lim, "dq": project_dq(rl)})
+        tr.append({"a": "Arrive", "t": t, "addr": addr, "cmd": cmd, "lim": lim, "dq": project_dq(rl, addrs)})
         if n in cleanup_at:
             rl.cleanup()
-            tr.append({"a": "Cleanup", "t": t, "dq": project_dq(rl)})
+            tr.append({"a": "Cleanup", "t": t, "dq": project_dq(rl, addrs)})
     return tr
 
 
@@ -102,9 +107,10 @@ class _Quiet:
         return lambda *a, **k: None
 
 
-def long_sequences(rnd, n, length):
+def long_sequences(rnd, n, length, addrs=None):
     """seeded long runs: sustained traffic just below / at / above the limits, bursts, idle gaps"""
     out = []
+    ADDRS_ = list(addrs or ADDRS)
     for _ in range(n):
         t = 0
         seq = []
@@ -118,7 +124,7 @@ def long_sequences(rnd, n, length):
                 t += rnd.choice([0, 0, 0, 61])
             else:
                 t += rnd.choice(DELTAS)
-            seq.append((t, rnd.choice(ADDRS if style == "mixed" else ADDRS[:2]), rnd.choice(CMDS if style == "mixed" else CMDS[:1])))
+            seq.append((t, rnd.choice(ADDRS_ if style == "mixed" else ADDRS_[:2]), rnd.choice(CMDS if style == "mixed" else CMDS[:1])))
         out.append(tuple(seq))
     return out
 
@@ -148,17 +154,19 @@ def run(prop, tier, seed, **kw):
     distinct = set()
     samples = []
     n_long = {"quick": 40, "thorough": 400}[tier]
-    for name, (options, rules) in RULESETS.items():
-        seqs, gstats = gen_sequences(rules, depth)
+    for name, rs in RULESETS.items():
+        options, rules = rs[0], rs[1]
+        addrs = rs[2] if len(rs) > 2 else ADDRS
+        seqs, gstats = gen_sequences(rules, depth, addrs=addrs)
         out.add_model(gstats)
         exhaustive_n = len(seqs)
-        longs = long_sequences(rnd, n_long, 120 if tier == "quick" else 300)
+        longs = long_sequences(rnd, n_long, 120 if tier == "quick" else 300, addrs=addrs)
         traces = []
         for s in seqs:
-            traces.append(replay(options, s, cleanup_at=(len(s) - 2,)))
+            traces.append(replay(options, s, cleanup_at=(len(s) - 2,), addrs=addrs))
         for s in longs:
-            traces.append(replay(options, s, cleanup_at=set(range(10, len(s), 37))))
-        defs = {"TD_Addrs": set(ADDRS), "TD_Cmds": set(CMDS), "TD_Rules": rules_tla(rules)}
+            traces.append(replay(options, s, cleanup_at=set(range(10, len(s), 37)), addrs=addrs))
+        defs = {"TD_Addrs": set(addrs), "TD_Cmds": set(CMDS), "TD_Rules": rules_tla(rules)}
         # the exhaustive short sequences go in large batches, the long runs in small ones (one TLC per batch reads them all)
         nshort = len(seqs)
         v1, vstats = tracedata.validate("RateLimiter_Trace", defs, traces[:nshort], batch=1500 if nshort > 3000 else 400)
